@@ -62,7 +62,7 @@ _Q_RULE = ("engine queue: QueuingMetricSink with a gated scripted wrapped sink (
            "with 5x the timeout before it counts). Distinct by text; non-trivial = contains a clone, drop, error, panic, refusal or counter read")
 _Q_NOTE = ("Trusted: Lean kernel + propext/Classical.choice/Quot.sound; the LTS's atomicity granularity (crossbeam, Arc, thread spawn, "
            "unwinding) is modelled; real-thread schedules are sampled by the harness in the sequentialised (quiescent) schedule plus "
-           "free-running stress, not enumerated; capacity 0 (rendezvous channel) is outside the model")
+           "free-running stress, not enumerated; capacity 0 (rendezvous channel) has its own model Cadence/Model/Queue0.lean (crossbeam zero flavour: try_send succeeds iff a receiver waits, is_empty() constantly true - trusted), tied by the queue0 histories, in which a refused emit is taken from the implementation (the harness cannot steer whether the worker is back in recv_timeout)")
 
 STD_DISPLAY = "impl Display for integers and f64 (std), str::trim_end_matches, String concatenation, Duration::as_millis/as_nanos are modelled, not verified"
 _FMT_TB = [KERNEL, TIE, STD_DISPLAY]
@@ -168,7 +168,7 @@ PROPS = {
     },
     "C09": {
         "engine": "queue",
-        "level_text": 'Lean 4 theorems C09.drop_never_blocks / stop_request_survives / last_drop_terminates / drains_before_release over the same LTS, for every capacity >= 1 or unbounded, every occupancy (full queue included) and every outcome script. PARTIAL for capacity 0 (which the property includes): a rendezvous channel is outside the model (the polling loop repaired in cea8c71 is not modelled); for it the property is tested by the correspondence (queue0 cases, qstop0 race scenario), not proved.',
+        "level_text": 'Lean 4 theorems C09.drop_never_blocks / stop_request_survives / last_drop_terminates / drains_before_release over the same LTS, for every capacity >= 1 or unbounded, every occupancy (full queue included) and every outcome script. Capacity 0 (rendezvous channel): C09.rendezvous_drop_never_blocks / rendezvous_stop_request_survives / rendezvous_last_drop_terminates / rendezvous_drains_before_release over the model Queue0 of the polling worker loop (cea8c71), and C09.rendezvous_blocking_recv_loses_stop (the loop before the repair reaches a state with no enabled step and the wrapped sink unreleased). PARTIAL there: finiteness before the dropping thread has set the flag needs a scheduler-fairness assumption that is not proved; tied by queue0 histories against Queue0.modelRun and the qstop0 race scenario.',
         "level_note": _Q_NOTE,
         "technique": 'Lean 4 proof (invariant + progress + termination measure after the last drop) + last-drop correspondence at every occupancy',
         "trusted_base": _Q_TB,
